@@ -10,7 +10,7 @@ from vk import refmodel as rm
 ID = 'C12'
 LEVEL = 'exploration'
 RULE = ('Cells of the cross product method {GET, POST, OPTIONS, PUT, DELETE, HEAD, PATCH} x EIO '
-        '{absent, 4, 3, empty, 44, repeated} x transport {absent, polling, websocket, bogus, '
+        '{absent, 4, 3, empty, 44, 4 twice, 4 and 3 in either order} x transport {absent, polling, websocket, bogus, '
         'Polling} x sid kind {absent, live polling, live upgraded, mid-upgrade, closed-not-reaped, '
         'unknown, rejected} x request kind {plain HTTP, WebSocket upgrade, GET with Upgrade: '
         'websocket, h2c, GET with Upgrade but no Connection header, GET asking to upgrade to h2c (an ordinary GET)} x JSONP index {absent, '
@@ -28,7 +28,7 @@ ASSUMPTIONS = ['same kernel assumptions as C03',
                'transport=polling without a sid']
 
 METHODS = ['GET', 'POST', 'OPTIONS', 'PUT', 'DELETE', 'HEAD', 'PATCH']
-EIOS = ['absent', '4', '3', 'empty', '44', 'repeated']
+EIOS = ['absent', '4', '3', 'empty', '44', 'repeated', 'repeated-43', 'repeated-34']
 TRANSPORTS = ['absent', 'polling', 'websocket', 'bogus', 'Polling', 'poll', 'socket']
 SIDS = ['absent', 'live-polling', 'live-upgraded', 'mid-upgrade', 'closed', 'unknown', 'rejected',
         'empty']     # 'empty': the parameter is there without a value (sid=) - names no session
@@ -70,7 +70,8 @@ def feasible(c):
         return False
     if cfg.startswith('websocket') and sidk in ('live-polling', 'mid-upgrade', 'closed'):
         return False
-    if cfg.endswith('-str') and (eio in ('3', 'empty', '44') or j in ('12', 'empty')):
+    if cfg.endswith('-str') and (eio in ('3', 'empty', '44', 'repeated-43', 'repeated-34') or
+                                 j in ('12', 'empty')):
         return False            # keep the product small: the string form varies transport only
     return True
 
@@ -164,6 +165,10 @@ def build_query(c, sid):
         parts.append('EIO=44')
     elif eio == 'repeated':
         parts.append('EIO=4&EIO=4')
+    elif eio == 'repeated-43':
+        parts.append('EIO=4&EIO=3')     # names another version as well: not a version-4 request
+    elif eio == 'repeated-34':
+        parts.append('EIO=3&EIO=4')
     if sid is not None:
         parts.append('sid=' + sid)
     if j == 'empty':
